@@ -1,2 +1,45 @@
-(* C07 (statements follow) *)
-From GJS Require Import Base Regex Schema GoType Exec.
+(* C07 - array length limits are enforced at every nesting level.
+   Statements only; every proof is `exact <lemma>`; Print Assumptions under each. *)
+From GJS Require Import Base Regex Schema GoType Gen Exec Valid ExecP GenP CoreP RunCore.
+
+(* the loop nest emitted for depth d checks exactly the arrays at nesting level d: every one of
+   them (at any position) must have a length within the limits; nil arrays are skipped *)
+Theorem C07_level : forall d mn mx v, d <> 0 -> slice_shaped d v = true ->
+  check_array d mn mx v = if levels_ok d mn mx v then Ok tt else Err.
+Proof. exact check_array_exact. Qed.
+Print Assumptions C07_level.
+
+(* one validator per nesting level 1..k of an inline array of depth k - all of them carrying the
+   limits of the OUTERMOST array (schema_generator.go:416-440 never advances the schema node) *)
+Theorem C07_every_level : forall fname jn mn mx e, not_inline_slice e = true -> (mn <> 0 \/ mx <> 0) ->
+  forall d depth, array_validators fname jn mn mx depth (nest d e) = map (fun i => VArray fname jn (depth + i) mn mx) (seq 0 d).
+Proof. exact array_validators_nest. Qed.
+Print Assumptions C07_every_level.
+
+(* hence, when every level states the same limits, all levels are enforced; an absent or null array is never checked *)
+Theorem C07_value : forall dvf raw st fname jname depth mn mx v,
+  depth <> 0 -> get_plain fname st = Some v -> slice_shaped depth v = true ->
+  after_step dvf raw st (VArray fname jname depth mn mx) = if levels_ok depth mn mx v then Ok st else Err.
+Proof. exact varray_value. Qed.
+Print Assumptions C07_value.
+Theorem C07_absent_or_null : forall dvf raw st fname jname depth mn mx,
+  depth <> 0 -> get_plain fname st = Some GNil -> after_step dvf raw st (VArray fname jname depth mn mx) = Ok st.
+Proof. exact varray_nil. Qed.
+Print Assumptions C07_absent_or_null.
+
+(* the full statement (each level against ITS OWN limits) is false of the faithful model: D9.
+   outer minItems 1, inner minItems 3: [[1]] is invalid but accepted *)
+Definition inner_arr : schema :=
+  Sch (mkC [SArray] None None [] 3 0 0 0 None None (mkBounds None None None None) None None) [] None false
+      (Some (Sch (mkC [SInteger] None None [] 0 0 0 0 None None (mkBounds None None None None) None None) [] None false None [] [])) [] [].
+Definition outer_obj : schema :=
+  Sch (mkC [SObject] None None [] 0 0 0 0 None None (mkBounds None None None None) None None)
+      [([97]%N, Sch (mkC [SArray] None None [] 1 0 0 0 None None (mkBounds None None None None) None None) [] None false (Some inner_arr) [] [])]
+      None false None [] [].
+Theorem C07_refuted_nested :
+  exists t b doc, gen (fun s => s) (mkCfg false false) [] 20 MDeclared None false outer_obj [82]%N = Done (t, b) /\
+    valid (fun _ _ => true) [] 20 outer_obj doc = false /\ is_ok (dec (fun _ _ => true) [] 20 t doc) = true.
+Proof.
+  eexists. eexists. exists (JObj [([97]%N, JArr [JArr [JInt 1]])]).
+  split; [vm_compute; reflexivity|]. vm_compute. split; reflexivity.
+Qed.
